@@ -188,6 +188,27 @@ def managerJson (s : Db Json Json) (key : Nat) (a : Accessory Json Json) : Json 
     ("aid", Json.num key), ("ownAid", jnat? a.aid), ("counter", Json.num a.iidm.counter),
     ("iids", Json.arr (objs.filterMap fun o => (a.iidm.getIid o).map fun i => Json.arr #[Json.num o, Json.num i]).toArray)]
 
+/-- tag every characteristic with its own identity as value, so that a read reveals which
+    object it reached -/
+def tagValues (s : Db Json Json) : Db Json Json :=
+  s.mapAccs fun a =>
+    { a with services := a.services.map fun sv =>
+        { sv with chars := sv.chars.map fun c => { c with value := Json.num c.obj } } }
+
+/-- one multi-id read probe: `{"unavailable": [aids], "ids": [[aid, iid], …]}` answered by the
+    model's `get_characteristics` + 200/207 selection; entries carry the object reached -/
+def probe17 (s : Db Json Json) (j : Json) : R Json := do
+  let unav ← (← getArr j "unavailable").toList.mapM asNat
+  let ids ← (← getArr j "ids").toList.mapM pairOf
+  let s1 := unav.foldl (fun s aid => s.modAcc aid (fun a => { a with available := false })) s
+  let r := (s1.handleGet ids (fun _ => none)).1
+  let entries := r.entries.map fun e =>
+    Json.mkObj <|
+      [("aid", Json.num e.aid), ("iid", Json.num e.iid)] ++
+      (match e.status with | none => [] | some st => [("status", Json.num st)]) ++
+      (match e.value with | none => [] | some v => [("obj", v)])
+  pure (Json.mkObj [("code", Json.num r.code), ("entries", Json.arr entries.toArray)])
+
 def handle17 (j : Json) : R Json := do
   let isBridge ← getBool j "bridge"
   let mainSpecs ← getArr j "main"
@@ -209,9 +230,11 @@ def handle17 (j : Json) : R Json := do
     Json.mkObj ([("pair", jpair p), ("obj", Json.num o),
       ("event", match s.eventId o with | none => Json.null | some e => jpair e)] ++ rd)
   let managers := managerJson s 1 s.main :: s.bridged.map (fun ka => managerJson s ka.1 ka.2)
+  let probes ← ((j.getObjValD "probes").getArr?.toOption.getD #[]).toList.mapM (probe17 (tagValues s))
   pure (Json.mkObj [
     ("results", Json.arr results.toArray), ("accessories", rendering),
-    ("resolve", Json.arr resolve.toArray), ("managers", Json.arr managers.toArray)])
+    ("resolve", Json.arr resolve.toArray), ("managers", Json.arr managers.toArray),
+    ("probes", Json.arr probes.toArray)])
 
 /-! ### C11: histories over a snapshot of a real configuration -/
 
